@@ -136,6 +136,8 @@ def run(res, tier, seed):
                     nm = "NSS.%s.%s.D03095.S0607.E0609.B0000000.WI" % (m, p)
                     files.append((fmt, nm, "ascii"))
             files.append((fmt, "NSS.%s.%s.D03095.S0607.E0609.B0000000.WI" % (ml[0], idl[0]), "ebcdic"))
+            if fam == "pod":
+                files.append((fmt, "NSS.%s.%s.D03095.S0607.E0609.B0000000.WI" % (rng.choice(ml), rng.choice(idl)), "blank-tbm"))
             if fam == "pod":       # the 44-byte name field padded with non-ASCII bytes behind the 42-character name
                 files.append((fmt, "NSS.%s.%s.D03095.S0607.E0609.B0000000.WI" % (ml[-1], idl[1]), "highpad"))
             files.append((fmt, "NSS.%s.%s.D03095.S0607.E0609.B0000000.WI" % (ml[-1], idl[-1]), "filename-only"))
@@ -157,6 +159,9 @@ def run(res, tier, seed):
             elif enc == "otherfields":
                 data = scramble_header(fmt, make_file(fmt, nm), rng)
                 fname = "somefile"
+            elif enc == "blank-tbm":   # POD behind a TBM archive header whose own name field is blank (42 NUL + 2 spaces)
+                data = l1b.make_tbm_header(blank_name=True) + make_file(fmt, nm, header_name=(nm.encode("cp500") if rng.random() < 0.3 else None))
+                fname = rng.choice(["somefile", "upload_0001.l1b"])
             else:
                 data = make_file(fmt, nm, archive=rng.random() < 0.5)     # with / without the ARS / TBM archive header
                 fname = rng.choice(["somefile", nm, "/data/" + nm + ".gz"])
